@@ -3,7 +3,7 @@
 src="$1"; tag="$2"; wt="/tmp/seedval/$tag"
 rm -rf "$wt"; mkdir -p /tmp/seedval
 git -C /repo worktree add --detach "$wt" HEAD -q || { echo "$tag worktree-failed"; exit 1; }
-cd "$wt"; mkdir -p _seed/x; cp "$src/demo.py" _seed/x/demo.py
+cd "$wt"; mkdir -p _seed/x; cp -r "$src"/. _seed/x/
 /venv/bin/python _seed/x/demo.py >/tmp/seedval/$tag.base.log 2>&1; base=$?
 if git apply --check "$src/patch.diff" 2>/dev/null; then
   git apply "$src/patch.diff"
